@@ -137,16 +137,66 @@ type Bin struct {
 	L, R Expr
 }
 
+// Prec is the XPath 1.0 binding strength of a binary operator.
+func Prec(op string) int {
+	switch op {
+	case "or":
+		return 1
+	case "and":
+		return 2
+	case "=", "!=":
+		return 3
+	case "<", "<=", ">", ">=":
+		return 4
+	case "+", "-":
+		return 5
+	case "*", "div", "mod":
+		return 6
+	case "|":
+		return 8
+	}
+	return 9
+}
+
+func exprPrec(e Expr) int {
+	switch v := e.(type) {
+	case *Bin:
+		return Prec(v.Op)
+	case *Neg:
+		return 7
+	}
+	return 10
+}
+
+// render keeps the string faithful to the AST: an operand that binds less
+// tightly than its parent (or equally, on the right of a left-associative
+// operator) is parenthesised.
 func (b *Bin) render(sb *strings.Builder) {
-	b.L.render(sb)
+	p := Prec(b.Op)
+	paren := func(e Expr, need bool) {
+		if need {
+			sb.WriteString("(")
+		}
+		e.render(sb)
+		if need {
+			sb.WriteString(")")
+		}
+	}
+	paren(b.L, exprPrec(b.L) < p)
 	sb.WriteString(" " + b.Op + " ")
-	b.R.render(sb)
+	paren(b.R, exprPrec(b.R) <= p)
 }
 
 type Neg struct{ E Expr }
 
 func (n *Neg) render(sb *strings.Builder) {
 	sb.WriteString("-")
+	if _, ok := n.E.(*Bin); ok && exprPrec(n.E) < 8 {
+		sb.WriteString("(")
+		n.E.render(sb)
+		sb.WriteString(")")
+		return
+	}
 	n.E.render(sb)
 }
 
